@@ -935,7 +935,7 @@ class Interp:
         if isinstance(container, (SStr, str)) and isinstance(x, (SStr, str)) and \
                 (isinstance(container, SStr) or isinstance(x, SStr)):
             from . import strings
-            return wrap(z3.Contains(strings.norm(self, to_z3(container)), strings.norm(self, to_z3(x))))
+            return wrap(strings.contains_term(self, to_z3(container), to_z3(x)))
         if isinstance(container, SList):
             from . import models
             return models.slist_contains(self, container, x)
